@@ -107,6 +107,7 @@ fn kinds(r: &mut Sm) -> Vec<CK> {
         CK::So2 { bounds: Some((-1.0, 2.5)) },
         CK::So3 { bounds: None },
         CK::So3 { bounds: Some((r.quat(), 1.0)) },
+        CK::R { n: 9, bounds: Some((0..9).map(|i| (-1.0 - i as f64, 2.0 + 0.5 * i as f64)).collect()) },
     ]
 }
 
